@@ -86,12 +86,20 @@ def updName (i : SyncIn) : String := ((listedRevs i).getLast?.map (·.name)).get
 
 def distinctOrdsC (pods : List CPod) : Bool := ((pods.map (·.pod.ord)).eraseDups).length == pods.length
 
-/-- a normal world (any pod management policy): valid spec, partition present (or OnDelete), every pod object belongs to
+/-- the `rollingUpdate` block with a partition `≥ 0` is present, or the strategy is OnDelete -/
+def partB (v : SetView) : Bool :=
+  v.strat == .onDelete || (match v.ru with | some (some p) => decide (0 ≤ p) | _ => false)
+
+/-- the legacy boundary mode: strategy RollingUpdate without a `rollingUpdate` block; the boundary between the revisions of
+    new pods is `status.currentReplicas` -/
+def legacyB (v : SetView) : Bool := v.strat == .rolling && v.ru.isNone
+
+/-- a normal world (any pod management policy, any update strategy): valid spec, every pod object belongs to
     the set (owned, member, selector, canonical name, storage ok, admitted, ordinal below MaxInt32), one pod per ordinal,
     revisions quiet, sizes within the model's id scheme, the set found by the
     uncached GET -/
 def normCB (h : Hashing) (i : SyncIn) : Bool :=
-  specOk i && (i.view.strat == .onDelete || (match i.view.ru with | some (some p) => decide (0 ≤ p) | _ => false)) &&
+  specOk i &&
   i.pods.all (fun c => c.owner == .self && c.member && c.selMatch && c.name == canonicalName i.setName c.pod.ord &&
     decide (0 ≤ c.pod.ord) && c.pod.stOk && c.pod.created) &&
   i.pods.all (fun c => decide (c.pod.ord < maxInt32)) &&
@@ -109,10 +117,10 @@ def noFsOutB (i : SyncIn) : Bool :=
   i.pods.all (fun c => !(c.pod.failed || c.pod.succeeded) || (desired (replicasOf i.view) i.view.slots).contains c.pod.ord)
 
 /-- normal under the Parallel policy -/
-def normB (h : Hashing) (i : SyncIn) : Bool := normCB h i && roomB i && i.view.parallel
+def normB (h : Hashing) (i : SyncIn) : Bool := normCB h i && partB i.view && roomB i && i.view.parallel
 
 /-- normal under OrderedReady -/
-def normOB (h : Hashing) (i : SyncIn) : Bool := normCB h i && roomB i && !i.view.parallel && noFsOutB i
+def normOB (h : Hashing) (i : SyncIn) : Bool := normCB h i && partB i.view && roomB i && !i.view.parallel && noFsOutB i
 
 /-- weight of a pod object sitting at a desired ordinal `o`: Failed/Succeeded 2; otherwise 3 when RollingUpdate still has to
     replace it, plus 1 for a missing identity; plus 1 while terminating -/
@@ -135,5 +143,46 @@ def muPods (i : SyncIn) : Nat :=
 
 /-- pods need no work -/
 def podsDone (i : SyncIn) : Bool := muPods i == 0
+
+end Asts.C02p
+
+namespace Asts.C02p
+open Asts
+
+/-! ### the legacy boundary mode (strategy RollingUpdate, no `rollingUpdate` block) -/
+
+/-- the name of the current revision the next sync resolves (`status.currentRevision` if listed, else the update revision) -/
+def curNameOf (i : SyncIn) : String :=
+  (((listedRevs i).find? (·.name == i.stored.currentRev)).map (·.name)).getD (updName i)
+
+/-- `o` is the only desired ordinal that does not hold a live pod -/
+def onlyNeedy (pods : List CPod) (D : List Int) (o : Int) : Bool :=
+  D.all (fun o' => o' == o || pods.any (fun c => c.pod.ord == o' && !(c.pod.failed || c.pod.succeeded)))
+
+/-- legacy weight of a pod object sitting at a desired ordinal: Failed/Succeeded 5; otherwise 3 when it is not at the update
+    revision, plus 1 for a missing identity -/
+def wLPod (upd : String) (c : CPod) : Nat :=
+  if c.pod.failed || c.pod.succeeded then 5 else
+    (if c.pod.rev != upd then 3 else 0) + (if c.pod.idOk then 0 else 1)
+
+/-- legacy weight of a desired ordinal: a vacancy weighs 1 when it is the only ordinal without a live pod and a pod created
+    there would be at the update revision (the vacancy the update walk leaves), and 4 otherwise (a pod created there may
+    come back at the current revision and then has to be replaced once more) -/
+def wLOf (v : SetView) (cur upd : String) (pods : List CPod) (D : List Int) (o : Int) : Nat :=
+  match pods.find? (·.pod.ord == o) with
+  | none => if onlyNeedy pods D o && newPodRev v cur upd o == upd then 1 else 4
+  | some c => wLPod upd c
+
+def muLOf (v : SetView) (cur upd : String) (D : List Int) (pods : List CPod) : Nat :=
+  (D.map (wLOf v cur upd pods D)).sum + 2 * (pods.filter (fun c => !D.contains c.pod.ord)).length
+
+/-- the legacy measure -/
+def muL (i : SyncIn) : Nat :=
+  muLOf i.view (curNameOf i) (updName i) (desired (replicasOf i.view) i.view.slots) i.pods
+
+/-- normal in the legacy boundary mode: `normCB`, strategy RollingUpdate without block, room for the pods; under
+    OrderedReady no Failed/Succeeded pod outside the desired set -/
+def normLB (h : Hashing) (i : SyncIn) : Bool :=
+  normCB h i && legacyB i.view && roomB i && (i.view.parallel || noFsOutB i)
 
 end Asts.C02p
